@@ -33,7 +33,7 @@ def main():
     out = os.path.join(VERIF, "seeded", sid)
     os.makedirs(out, exist_ok=True)
     for name in ("patch.diff", "demo.py", "notes.txt"):
-        if os.path.exists(os.path.join(src, name)):
+        if os.path.exists(os.path.join(src, name)) and os.path.abspath(src) != os.path.abspath(out):
             shutil.copy(os.path.join(src, name), os.path.join(out, name))
     wt = tempfile.mkdtemp(prefix="seedwt-")
     os.rmdir(wt)
